@@ -274,23 +274,52 @@ func c16(c *core.Ctx) {
 	esf := p.Func(fedPkg, "(*Federation).EventStream")
 	c.Analysed(fname(esf))
 	nNext := 0
+	// the site that advances the next expected id: a direct store, or a call of a setter that stores its argument
+	isSetter := func(f *ssa.Function) int {
+		if f == nil || f.Blocks == nil {
+			return -1
+		}
+		for _, st := range storesToField(f, fedPkg+".session.nextEventID") {
+			for i, prm := range f.Params {
+				if st.Val == ssa.Value(prm) {
+					return i
+				}
+			}
+		}
+		return -1
+	}
 	for _, a := range esf.AnonFuncs {
 		sends := ssax.Calls(a, false, func(ce ssax.Callee) bool { return ce.Kind == "invoke" && ce.Method.Name() == "Send" })
+		type adv struct {
+			at  ssa.Instruction
+			val ssa.Value
+		}
+		var advs []adv
 		for _, st := range storesToField(a, fedPkg+".session.nextEventID") {
-			nNext++
-			bo, ok := st.Val.(*ssa.BinOp)
-			okVal := ok && bo.Op == token.ADD && ssax.LoadOfField(fedPkg+".Ack.EventId")(bo.X)
-			if k, isC := constInt(bo.Y); !isC || k != 1 {
-				okVal = false
+			advs = append(advs, adv{st, st.Val})
+		}
+		for _, cs := range ssax.Calls(a, false, nil) {
+			if i := isSetter(cs.Callee.Func); i >= 0 && i < len(cs.Instr.Common().Args) {
+				advs = append(advs, adv{cs.Instr, cs.Instr.Common().Args[i]})
 			}
-			c.Check(okVal, "C16.R4", "EventStream|next-id-value", ipos(c, st), "next = acknowledged id + 1", "the next expected event id is not 'acknowledged id + 1'")
+		}
+		for _, ad := range advs {
+			nNext++
+			bo, ok := ad.val.(*ssa.BinOp)
+			okVal := ok && bo.Op == token.ADD && ssax.LoadOfField(fedPkg+".Ack.EventId")(bo.X)
+			if okVal {
+				if k, isC := constInt(bo.Y); !isC || k != 1 {
+					okVal = false
+				}
+			}
+			c.Check(okVal, "C16.R4", "EventStream|next-id-value", ipos(c, ad.at), "next = acknowledged id + 1", "the next expected event id is not 'acknowledged id + 1'")
 			okAfter := len(sends) == 1
 			if okAfter {
 				errv := ssax.ResultValue(sends[0].Instr, 0)
 				r := ssax.Analyze(a, ssax.ReachOpts{Pins: map[ssa.Value]ssax.AV{errv: ssax.AVNonNil}, Start: sends[0].Instr, CutBackEdges: true})
-				okAfter = errv != nil && !r.Reachable(st) && ssax.Dominates(sends[0].Instr, st)
+				okAfter = errv != nil && !r.Reachable(ad.at) && ssax.Dominates(sends[0].Instr, ad.at)
 			}
-			c.Check(okAfter, "C16.R4", "EventStream|next-id-after-send", ipos(c, st), "advanced only after the ack was sent", "the next expected id advances although sending the ack failed (or before it is sent): the event is skipped on resume")
+			c.Check(okAfter, "C16.R4", "EventStream|next-id-after-send", ipos(c, ad.at), "advanced only after the ack was sent", "the next expected id advances although sending the ack failed (or before it is sent): the event is skipped on resume")
 		}
 	}
 	c.Check(nNext == 1, "C16.R4", "EventStream|next-id", fpos(c, esf), "the next expected id is maintained", fmt.Sprintf("session.nextEventID must be maintained at one place in the stream loop (found %d)", nNext))
